@@ -141,6 +141,7 @@ pub struct Ctx {
     local_seen: HashSet<u64>,
     evals: u64,
     pub violations: u64,
+    pub violation_keys: Vec<String>,
     out: Option<Arc<Mutex<std::io::Stdout>>>,
     pub replay_mode: bool,
     pub gram_bin: String,
@@ -167,6 +168,7 @@ impl Ctx {
             local_seen: HashSet::new(),
             evals: 0,
             violations: 0,
+            violation_keys: vec![],
             out: None,
             replay_mode: false,
             gram_bin: std::env::var("GV_GRAM_BIN").unwrap_or_default(),
@@ -219,6 +221,7 @@ impl Ctx {
     }
     pub fn violation(&mut self, key: &str, what: &str, detail: Json) {
         self.violations += 1;
+        self.violation_keys.push(key.to_owned());
         let j = Json::obj()
             .set("t", Json::s("V"))
             .set("key", Json::s(key))
@@ -867,13 +870,25 @@ pub fn replay(prop: &'static dyn Prop, file: &str) -> i32 {
             if let Err(e) = r {
                 println!("escaped panic: {}", panic_text(&e));
             }
-            ctx.violations
+            let known: Vec<String> = ctx.known.iter().filter(|k| k.str_of("status") == "open").map(|k| k.str_of("key")).collect();
+            let (mut new, mut old) = (0u64, 0u64);
+            for k in &ctx.violation_keys {
+                if known.contains(k) {
+                    old += 1;
+                } else {
+                    new += 1;
+                }
+            }
+            (new, old)
         })
         .unwrap();
-    let v = h.join().unwrap_or(0);
-    if v > 0 {
+    let (new, old) = h.join().unwrap_or((0, 0));
+    if new > 0 {
         println!("VIOLATION property={} replay={file}", prop.id());
         1
+    } else if old > 0 {
+        println!("KNOWN-FINDING: property={} reproduced from {file} (recorded in known_findings.json)", prop.id());
+        0
     } else {
         println!("no violation reproduced for {file}");
         0
